@@ -126,6 +126,11 @@ func TestC07Rounds(t *testing.T) {
 		for _, qt := range []string{"spotprice", "trbbridge"} {
 			spec, _ := w.s.Registrykeeper.GetSpec(w.ctx, qt)
 			spec.ReportBlockWindow = uint64(pick(r, 0, 1, 2, 3, 5))
+			if qt == "trbbridge" && spec.ReportBlockWindow == 0 {
+				// environment assumption of C07/C08 (closing_distinct): the bridge-deposit window is at least one block;
+				// with 0 a second deposit report in the same block opens a second round that closes in that block too
+				spec.ReportBlockWindow = 1
+			}
 			w.deliver("UpdateDataSpec", -3, nil, func(ctx sdk.Context) error {
 				_, err := w.registryMS.UpdateDataSpec(ctx, &registrytypes.MsgUpdateDataSpec{Authority: w.authority, QueryType: qt, Spec: spec})
 				return err
@@ -190,6 +195,9 @@ func TestC07Rounds(t *testing.T) {
 						continue
 					}
 					spec.ReportBlockWindow = uint64(pick(r, 0, 1, 2, 5, 9))
+					if bridge && spec.ReportBlockWindow == 0 {
+						spec.ReportBlockWindow = 1
+					}
 					res := w.deliver("UpdateDataSpec", -3, nil, func(ctx sdk.Context) error {
 						_, err := w.registryMS.UpdateDataSpec(ctx, &registrytypes.MsgUpdateDataSpec{Authority: w.authority, QueryType: qt, Spec: spec})
 						return err
